@@ -138,6 +138,22 @@ def run_version(args):
         for raw, label in muts:
             for pend_cmd in (None, "getNodeId") if not quick or rng.random() < 0.5 else ((None,) if rng.random() < 0.5 else ("getNodeId",)):
                 job(pend_cmd, raw, label + ":" + name)
+    # a fully valid frame of ANOTHER command under the pending command's sequence number
+    from .c07 import gen
+    cmds = holder["cmds"]
+    pend_cmds = [c for c in ("getNodeId", "setPolicy", "getConfigurationValue", "setConfigurationValue", "sendUnicast", "nop", "getEui64",
+                             "networkState", "setValue") if c in cmds and isinstance(cmds[c][1], dict)]
+    names = [n for n in cmds if isinstance(cmds[n][2], dict)]
+    k = 0
+    for pend_cmd in pend_cmds:
+        for name in names:
+            k += 1
+            if name == pend_cmd or (quick and (k + ver) % 4):
+                continue
+            vals = [gen(ty, rng) for ty in cmds[name][2].values()]
+            payload = b"".join(v.serialize() for v in vals)
+            raw = ncp_ezsp.make_header(ncp_ezsp.layout_of(ver), 0, int(cmds[name][0]), response=True) + payload
+            job(pend_cmd, raw, "foreign:" + name)
     for _ in range(n_random):                                      # uniformly random byte strings
         raw = bytes(rng.randrange(256) for _ in range(rng.choice((0, 1, 2, 3, 4, 5, 6, 8, 12, 30))))
         job(rng.choice((None, "getNodeId", "sendUnicast", "readCounters")), raw, "random")
